@@ -1,8 +1,8 @@
 CONSTANTS
-  SegsA = 2
-  SegsB = 2
+  SegsA = 3
+  SegsB = 3
   Fam = "uri"
-  Mode = "main"
+  Mode = "pct"
 INIT Init
 NEXT Next
 INVARIANT Satisfiable
